@@ -284,16 +284,23 @@ def pushLoop (g : Graph α) (deg : List α) (a tol : α) : Nat → PState α →
       pushLoop g deg a tol fuel (pushNeighbours deg a tol v (g.row v) st1)
 
 /-- `push_pagerank(n, degrees, indptr, indices, rev_indptr, rev_indices, seeds, damping_factor, tol)`
-    followed by the `scores / scores.sum()` of `get_pagerank`; the ℓ1 norm of the kernel is a plain sum because
-    every score is positive -/
-def pushPagerank (g rev : Graph α) (deg seeds : List α) (a tol : α) (fuel : Nat) : Option (List α) :=
+    followed by the `scores / scores.sum()` of `get_pagerank`, with the initial work-list `order` = what
+    `np.argsort(-residuals)` returned (any permutation sorting the residuals in descending order: numpy's
+    vectorised sorts do not keep equal keys in index order); the ℓ1 norm of the kernel is a plain sum because every
+    score is positive -/
+def pushPagerankOrd (g rev : Graph α) (deg seeds : List α) (a tol : α) (fuel : Nat) (order : List Nat) :
+    Option (List α) :=
   let resid := pushInit g.n rev deg seeds a
-  let st0 : PState α := { scores := tab g.n fun _ => 1 - a, resid := resid, work := argsortDesc resid }
+  let st0 : PState α := { scores := tab g.n fun _ => 1 - a, resid := resid, work := order }
   match pushLoop g deg a tol fuel st0 with
   | none => none
   | some st =>
     let norm := ((List.range g.n).map fun i => absS (st.scores.getD i 0)).sum
     some (normalizeV g.n (tab g.n fun i => st.scores.getD i 0 / norm))
+
+/-- the same with the stable descending order -/
+def pushPagerank (g rev : Graph α) (deg seeds : List α) (a tol : α) (fuel : Nat) : Option (List α) :=
+  pushPagerankOrd g rev deg seeds a tol fuel (argsortDesc (pushInit g.n rev deg seeds a))
 
 /-! ### Katz (`ranking/katz.py`) -/
 
